@@ -69,14 +69,16 @@ func NewContext(opts py.ContextOpts) py.Context {
 	return ctx
 }
 
-// ModuleInit digests a ModuleImpl, compiling and marshalling as needed, creating a new Module instance in this Context.
-func (ctx *context) ModuleInit(impl *py.ModuleImpl) (*py.Module, error) {
-	err := ctx.pushBusy()
-	if err != nil {
-		return nil, err
-	}
-	defer ctx.popBusy()
+// moduleCodeMu guards the lazy compilation of a registered module's
+// code: the ModuleImpl is shared by all contexts of the process
+var moduleCodeMu sync.Mutex
 
+// moduleCode returns the code object of impl, compiling or
+// unmarshalling it on first use
+func moduleCode(impl *py.ModuleImpl) (*py.Code, error) {
+	moduleCodeMu.Lock()
+	defer moduleCodeMu.Unlock()
+	var err error
 	if impl.Code == nil && len(impl.CodeSrc) > 0 {
 		impl.Code, err = py.Compile(string(impl.CodeSrc), impl.Info.FileDesc, py.ExecMode, 0, true)
 		if err != nil {
@@ -95,14 +97,29 @@ func (ctx *context) ModuleInit(impl *py.ModuleImpl) (*py.Module, error) {
 			return nil, py.ExceptionNewf(py.AssertionError, "Embedded code did not produce a py.Code object")
 		}
 	}
+	return impl.Code, nil
+}
+
+// ModuleInit digests a ModuleImpl, compiling and marshalling as needed, creating a new Module instance in this Context.
+func (ctx *context) ModuleInit(impl *py.ModuleImpl) (*py.Module, error) {
+	err := ctx.pushBusy()
+	if err != nil {
+		return nil, err
+	}
+	defer ctx.popBusy()
+
+	code, err := moduleCode(impl)
+	if err != nil {
+		return nil, err
+	}
 
 	module, err := ctx.Store().NewModule(ctx, impl)
 	if err != nil {
 		return nil, err
 	}
 
-	if impl.Code != nil {
-		_, err = ctx.RunCode(impl.Code, module.Globals, module.Globals, nil)
+	if code != nil {
+		_, err = ctx.RunCode(code, module.Globals, module.Globals, nil)
 		if err != nil {
 			return nil, err
 		}
